@@ -14,13 +14,13 @@ var siteCache sync.Map
 func CallerSite(skip int) string {
 	var pcs [1]uintptr
 	if runtime.Callers(skip+1, pcs[:]) == 0 {
-		return "L:?"
+		return "?"
 	}
 	if s, ok := siteCache.Load(pcs[0]); ok {
 		return s.(string)
 	}
 	fr, _ := runtime.CallersFrames(pcs[:]).Next()
-	s := "L:" + filepath.Base(fr.File) + ":" + strconv.Itoa(fr.Line)
+	s := filepath.Base(fr.File) + ":" + strconv.Itoa(fr.Line)
 	siteCache.Store(pcs[0], s)
 	return s
 }
